@@ -44,6 +44,16 @@ def main():
         i = a.index("--incrate")
         incrate.append(a[i + 1].split(":"))
         a = a[:i] + a[i + 2:]
+    scaffold = None
+    if "--scaffold" in a:       # --scaffold <shell script>: test-only scaffolding the demonstration installs in the worktree (run after
+        i = a.index("--scaffold")   # the mutation was applied / reverted, before the tests; must be idempotent); `--scaffold-test <name>`
+        scaffold = a[i + 1]         # names the test binary the script installs under tests/
+        a = a[:i] + a[i + 2:]
+    scaffold_tests = []
+    while "--scaffold-test" in a:
+        i = a.index("--scaffold-test")
+        scaffold_tests.append(a[i + 1])
+        a = a[:i] + a[i + 2:]
     sid, prop, wt, diff, demo = a[:5]
     diff = os.path.abspath(diff)
     meta = {"seed_id": sid, "breaks_property": prop, "needs_to_manifest": needs, "source": "independent sub-agent given only the property text and a scratch worktree",
@@ -73,9 +83,19 @@ def main():
         print("diff does not apply:", out)
         return 2
     sh("git apply %s" % diff, cwd=wt)
+    if scaffold:
+        rc, out = sh("sh %s" % scaffold, cwd=wt)
+        demo_tests += [t for t in scaffold_tests if t not in demo_tests]
+        meta["demo_tests_run"] = demo_tests
+        meta["demo_scaffold_script"] = os.path.basename(scaffold)
     failed_mut, summ_mut = nextest(wt)
     meta["ran"].append({"cmd": "git apply mut && cargo nextest run --workspace (suite + demo)", "summary": summ_mut, "failed": failed_mut})
-    sh("git apply -R %s" % diff, cwd=wt)
+    if scaffold:
+        sh("git checkout -- src && git clean -fdq src", cwd=wt)
+    else:
+        sh("git apply -R %s" % diff, cwd=wt)
+    if scaffold:
+        sh("sh %s" % scaffold, cwd=wt)
     if incrate:
         filt = "-E '%s'" % " | ".join("test(%s)" % t for t in demo_tests)
     else:
@@ -83,6 +103,11 @@ def main():
     failed_clean, summ_clean = nextest(wt, filt)
     meta["ran"].append({"cmd": "git checkout -- src && cargo nextest run %s (demo only)" % filt, "summary": summ_clean, "failed": failed_clean})
     sh("git checkout -- src", cwd=wt)
+    if scaffold:
+        sh("git clean -fdq src", cwd=wt)
+        for t in scaffold_tests:
+            if os.path.exists(os.path.join(wt, "tests", t + ".rs")):
+                os.remove(os.path.join(wt, "tests", t + ".rs"))
     for (fn, dest, modfile) in incrate:
         if os.path.exists(os.path.join(wt, dest)):
             os.remove(os.path.join(wt, dest))
